@@ -1090,6 +1090,9 @@ class Super:
             return ("call", np, args)
         if ci["kind"] == "crate" and ci["targets"]:
             tf = ci["targets"][0]
+            v = self._expanded_tuple_result(ctx, bb)     # the expansion that is really in the graph (its call sites carry their identity)
+            if v is not None:
+                return v
             if tf.kind != "closure" and self._single_path(tf) and tf.id not in ctx.chain and ctx.depth < self.MAX_DEPTH and not self.P.fn_mayU(tf) and tf.npath not in PURE_GETTERS and tf.npath not in self.opaque:
                 # accessor-like: substitute symbolically
                 bind = {i + 1: a for i, a in enumerate(args) if i < tf.arg_count}
@@ -1127,7 +1130,7 @@ class Super:
         if len(defs) != 1 or defs[0][0] != "stmt" or 0 in sub.fn._partial:
             return None
         rv = sub.fn.blocks[defs[0][1]]["stmts"][defs[0][2]]["rv"]
-        if rv["k"] != "agg" or rv.get("agg") != "tuple" or not rv["ops"]:
+        if rv["k"] != "agg" or rv.get("agg") not in ("tuple", "adt") or not rv["ops"]:
             return None
         v = self.resolve_rv(sub, rv, None)
         return None if _mentions(v, ("phi", "undef")) else v
